@@ -52,7 +52,15 @@ def impl_bits(got, want):
     checker, _, _ = _mods()
     if _STATES is None:
         _STATES = [runstate(i) for i in range(32)]
-    return ''.join('1' if checker.check_output(got, want, st) else '0' for st in _STATES)
+    return ''.join(_co_bit(checker, got, want, st) for st in _STATES)
+
+
+def _co_bit(checker, got, want, st):
+    """'1' / '0', or 'E' when check_output raises instead of answering"""
+    try:
+        return '1' if checker.check_output(got, want, st) else '0'
+    except Exception:      # noqa
+        return 'E'
 
 
 def _pairs_worker(pairs):
